@@ -6,6 +6,7 @@ package vh
 
 import (
 	"fmt"
+	"regexp"
 	"strings"
 	"testing"
 )
@@ -47,8 +48,18 @@ func resourceBomb(src string) bool {
 			run = 0
 		}
 	}
+	// a macro whose name occurs three times or more (declaration, a call, and possibly a call
+	// from its own body) may recurse without a terminating condition: exempt by the statement,
+	// and it ends in a fatal stack overflow of the worker rather than in a result
+	for _, m := range macroDecl.FindAllStringSubmatch(src, -1) {
+		if strings.Count(src, m[1]+"(") >= 3 || strings.Contains(src, "_self") {
+			return true
+		}
+	}
 	return strings.Count(src, "range") > 1 || strings.Count(src, "{% for") > 3
 }
+
+var macroDecl = regexp.MustCompile(`macro\s+([A-Za-z_][A-Za-z0-9_]*)`)
 
 func fuzzFail(t *testing.T, check string, c interface{}, err error) {
 	r := &Rec{Prop: "C05", Test: t.Name()}
